@@ -658,6 +658,10 @@ def m0_callbacks():
     m.method("Cb", "cb_void", None, [("f", Callback([P("u32")], None)), ("k", P("u8"))], None)
     m.method("Cb", "cb_float", None, [("f", Callback([P("f64"), P("f32")], P("f64")))], P("f64"))
     m.method("Cb", "cb_bool", None, [("f", Callback([P("bool"), P("i8")], P("bool")))], P("bool"))
+    m.add(EnumDef("CbEn", [("Neg", -3), ("Five", 5), ("Big", 70000)]))
+    m.add(StructDef("CbSt", [("a", P("u8")), ("b", P("u32")), ("c", P("i16"))]))
+    m.method("Cb", "cb_enum", None, [("f", Callback([EnumT("CbEn"), P("u8")], EnumT("CbEn")))], EnumT("CbEn"))
+    m.method("Cb", "cb_struct", "ref", [("f", Callback([StructT("CbSt"), EnumT("CbEn")], P("i16")))], P("i16"))
     m.method("Cb", "new", None, [], OpaqueBox("Cb"))
     return m
 
